@@ -567,6 +567,8 @@ func callProfile() Profile {
 			Def("f", []*Param{P("a"), PD("b", pr("5"))}, []*Node{Return(Tuple(Name("a"), Name("b")))}),
 			Def("f", []*Param{P("a"), PStar("r"), PD("k", pr("6")), PStarStar("kw")}, []*Node{Return(Tuple(Name("a"), Name("r"), Name("k"), Name("kw")))}),
 			Def("f", []*Param{PStar(""), P("k")}, []*Node{Return(Name("k"))}),
+			Def("f", []*Param{P("a"), PD("b", pr("5")), PStarStar("kw")}, []*Node{Return(Tuple(Name("a"), Name("b"), Name("kw")))}),
+			Def("f", []*Param{P("a"), P("b"), PStarStar("kw")}, []*Node{ExprS(pr("4")), Return(Tuple(Name("a"), Name("b"), Name("kw")))}),
 			Assign("=", Name("f"), Lambda([]*Param{P("a"), PD("b", pr("5"))}, Tuple(Name("a"), Name("b")))),
 			Assign("=", Name("f"), Name("len")),
 			Assign("=", Name("f"), Num(3)),
@@ -576,7 +578,8 @@ func callProfile() Profile {
 		return [][]*Node{{}, {pr("1")}, {pr("1"), pr("2")}, {pr("1"), pr("2"), pr("3")}}
 	}
 	named := func() [][]NamedArg {
-		return [][]NamedArg{nil, {{"b", pr("7")}}, {{"k", pr("8")}}, {{"a", pr("9")}, {"zz", pr("10")}}, {{"k", pr("8")}, {"b", pr("7")}}}
+		return [][]NamedArg{nil, {{"b", pr("7")}}, {{"k", pr("8")}}, {{"a", pr("9")}, {"zz", pr("10")}}, {{"k", pr("8")}, {"b", pr("7")}},
+			{{"zz", pr("10")}}, {{"zz", pr("10")}, {"yy", pr("11")}}}
 	}
 	stars := func() []*Node {
 		return []*Node{nil, Probe(0, List(Num(21))), Probe(0, Tuple()), Probe(0, Num(4)), Probe(0, Str("xy"))}
@@ -895,7 +898,161 @@ func escapeProfile() Profile {
 	}}
 }
 
+// ---------------------------------------------------------------------------
+// profile "alias": two variables, one operation that copies or shares (x = y,
+// x += y, x = x + y, x.extend(y), slices, list(), dict(), |, |=, update ...),
+// then one in-place change through either variable, then both are observed:
+// which operations share storage and which copy is part of the semantics.
+
+func aliasProfile() Profile {
+	type fam struct {
+		ys, xs  []func() *Node // initial values of y and x
+		share   []func() *Node // statements over x, y
+		mutate  []func() *Node
+	}
+	call := func(recv, m string, args ...*Node) *Node { return ExprS(Call(Attr(Name(recv), m), args...)) }
+	lists := fam{
+		ys: []func() *Node{func() *Node { return List(Num(1), Num(2)) }, func() *Node { return List(List(Num(1)), Num(2)) }},
+		xs: []func() *Node{func() *Node { return List() }, func() *Node { return List(Num(0)) }},
+		share: []func() *Node{
+			func() *Node { return Assign("+=", Name("x"), Name("y")) },
+			func() *Node { return Assign("=", Name("x"), Bin("+", Name("x"), Name("y"))) },
+			func() *Node { return call("x", "extend", Name("y")) },
+			func() *Node { return Assign("=", Name("x"), Name("y")) },
+			func() *Node { return Assign("=", Name("x"), Slice(Name("y"), nil, nil, nil)) },
+			func() *Node { return Assign("=", Name("x"), Slice(Name("y"), Num(0), Num(2), nil)) },
+			func() *Node { return Assign("=", Name("x"), Call(Name("list"), Name("y"))) },
+			func() *Node { return Assign("=", Name("x"), Bin("*", Name("y"), Num(1))) },
+			func() *Node { return Assign("=", Name("x"), Bin("+", List(), Name("y"))) },
+			func() *Node { return Assign("=", Name("x"), Bin("+", Name("y"), List())) },
+			func() *Node { return Assign("=", Name("x"), Bin("or", Name("x"), Name("y"))) },
+			func() *Node { return Assign("=", Name("x"), ListComp(Name("e"), ForC(Name("e"), Name("y")))) },
+			func() *Node { return Assign("=", Name("x"), Call(Name("sorted"), Name("y"))) },
+			func() *Node { return Assign("=", Tuple(Name("x"), Name("w")), Tuple(Name("y"), Name("x"))) },
+		},
+		mutate: []func() *Node{
+			func() *Node { return Assign("=", Index(Name("x"), Num(0)), Num(9)) },
+			func() *Node { return Assign("=", Index(Name("y"), Num(0)), Num(9)) },
+			func() *Node { return call("x", "append", Num(9)) },
+			func() *Node { return call("y", "append", Num(9)) },
+			func() *Node { return call("x", "pop") },
+			func() *Node { return call("y", "clear") },
+			func() *Node { return Assign("+=", Index(Name("x"), Num(0)), Num(5)) },
+			func() *Node { return Assign("+=", Name("y"), List(Num(7))) },
+		},
+	}
+	dicts := fam{
+		ys: []func() *Node{func() *Node { return DictE(Num(1), Num(2)) }, func() *Node { return DictE(Num(1), List(Num(2)), Num(3), Num(4)) }},
+		xs: []func() *Node{func() *Node { return DictE() }, func() *Node { return DictE(Num(0), Num(0)) }},
+		share: []func() *Node{
+			func() *Node { return Assign("|=", Name("x"), Name("y")) },
+			func() *Node { return Assign("=", Name("x"), Bin("|", Name("x"), Name("y"))) },
+			func() *Node { return call("x", "update", Name("y")) },
+			func() *Node { return Assign("=", Name("x"), Name("y")) },
+			func() *Node { return Assign("=", Name("x"), Call(Name("dict"), Name("y"))) },
+			func() *Node { return Assign("=", Name("x"), Bin("|", DictE(), Name("y"))) },
+			func() *Node { return Assign("=", Name("x"), Bin("|", Name("y"), DictE())) },
+			func() *Node { return Assign("=", Name("x"), DictComp(Name("k"), Index(Name("y"), Name("k")), ForC(Name("k"), Name("y")))) },
+		},
+		mutate: []func() *Node{
+			func() *Node { return Assign("=", Index(Name("x"), Num(1)), Num(9)) },
+			func() *Node { return Assign("=", Index(Name("y"), Num(1)), Num(9)) },
+			func() *Node { return Assign("=", Index(Name("x"), Num(8)), Num(9)) },
+			func() *Node { return call("x", "pop", Num(1)) },
+			func() *Node { return call("y", "clear") },
+			func() *Node { return Assign("|=", Name("y"), DictE(Num(7), Num(7))) },
+		},
+	}
+	return Profile{Name: "alias", MaxLevel: 2, Level: func(n int, yield func(Program) bool) {
+		for _, f := range []fam{lists, dicts} {
+			for _, y0 := range f.ys {
+				for _, x0 := range f.xs {
+					for _, sh := range f.share {
+						for _, mu := range f.mutate {
+							core := []*Node{Assign("=", Name("y"), y0()), Assign("=", Name("x"), x0()), Assign("=", Name("w"), Num(0)), sh(), mu(),
+								Assign("=", Name("z"), Probe(0, Tuple(Name("x"), Name("y"))))}
+							var st []*Node
+							if n == 1 {
+								st = core
+							} else {
+								body := append(core, Return(Tuple(Name("x"), Name("y"))))
+								st = []*Node{Def("main", nil, body), Assign("=", Name("r"), Call(Name("main")))}
+							}
+							if !yield(Program{Profile: "alias", Stmts: st, Need: Options{GlobalReassign: true}}) {
+								return
+							}
+						}
+					}
+				}
+			}
+		}
+	}}
+}
+
+// ---------------------------------------------------------------------------
+// profile "chains": a + chain of three or four operands one of whose operands
+// contains another + chain of three operands (in parentheses, as a call
+// argument, as a subscript), in every position, over int, string-literal and
+// list operands: chains are compiled specially (operand spilling, literal
+// folding) and a nested chain must not disturb the outer one.
+
+func chainsProfile() Profile {
+	type flavour struct{ mk func(i int) *Node }
+	flavours := []flavour{
+		{func(i int) *Node { return Probe(0, Num(int64(i))) }},
+		{func(i int) *Node { return Str(string(rune('a' + i))) }},
+		{func(i int) *Node { return List(Probe(0, Num(int64(i)))) }},
+		{func(i int) *Node { return Name([]string{"s", "l2", "s", "l2", "s", "l2", "s", "l2"}[i%8]) }}, // mixed str/list: failures
+	}
+	wrap := []func(e *Node) *Node{
+		func(e *Node) *Node { return Paren(e) },
+		func(e *Node) *Node { return Call(Name("idf"), e) },
+		func(e *Node) *Node { return Index(List(e), Num(0)) },
+		func(e *Node) *Node { return Cond(Num(1), e, Num(0)) },
+	}
+	chain := func(ops []*Node) *Node {
+		e := ops[0]
+		for _, o := range ops[1:] {
+			e = Bin("+", e, o)
+		}
+		return e
+	}
+	return Profile{Name: "chains", MaxLevel: 1, Level: func(n int, yield func(Program) bool) {
+		for _, fl := range flavours {
+			for outer := 3; outer <= 4; outer++ {
+				for pos := 0; pos < outer; pos++ {
+					for wi, w := range wrap {
+						k := 0
+						next := func() *Node { k++; return fl.mk(k) }
+						var ops []*Node
+						for i := 0; i < outer; i++ {
+							if i == pos {
+								ops = append(ops, w(chain([]*Node{next(), next(), next()})))
+							} else {
+								ops = append(ops, next())
+							}
+						}
+						st := []*Node{
+							Def("idf", []*Param{P("v")}, []*Node{Return(Name("v"))}),
+							Assign("=", Name("s"), Str("S")), Assign("=", Name("l2"), List(Num(7))),
+							Assign("=", Name("x"), chain(ops)),
+						}
+						if wi == 3 { // also two nested chains in one outer chain
+							ops2 := append([]*Node{}, ops...)
+							ops2[(pos+1)%outer] = Paren(chain([]*Node{next(), next(), next()}))
+							st = append(st, Assign("=", Name("y"), chain(ops2)))
+						}
+						if !yield(Program{Profile: "chains", Stmts: st}) {
+							return
+						}
+					}
+				}
+			}
+		}
+	}}
+}
+
 // Profiles returns every profile in a fixed order.
 func Profiles() []Profile {
-	return []Profile{exprProfile(), plusProfile(), assignProfile(), controlProfile(), scopeProfile(), callProfile(), loadProfile(), compProfile(), foldProfile(), escapeProfile()}
+	return []Profile{exprProfile(), plusProfile(), assignProfile(), controlProfile(), scopeProfile(), callProfile(), loadProfile(), compProfile(), foldProfile(), escapeProfile(), aliasProfile(), chainsProfile()}
 }
